@@ -127,18 +127,26 @@ def run_one(kind, case):
     signal.setitimer(signal.ITIMER_REAL, 0)
 
 
+_HISTORY = {}
+
+
 def _work(args):
   kname, cases = args
   kind = _MODULE.KINDS[kname]
   agg = {"n": 0, "nontrivial": set(), "outcomes": collections.Counter(),
          "viols": [], "first": None, "extra": collections.Counter(),
          "succ": {}}
+  done = _HISTORY.setdefault(kname, [])     # the cases of this kind this worker process ran before (see "prelude" in Run.finish)
   for shard in cases:
     subs = kind.expand(shard) if kind.expand else (shard,)
     for case in subs:
       if agg["first"] is None:
         agg["first"] = case
       r = run_one(kind, case)
+      if r.viol is not None and not agg["viols"] and len(done) <= 4000 and "replay_case" not in r.viol:
+        r.viol["prelude"] = list(done)
+      if len(done) <= 4000:
+        done.append(case)
       agg["n"] += r.n
       if r.nontrivial:
         agg["nontrivial"].add(digest(case))
@@ -323,6 +331,22 @@ class Run(object):
       path = write_artefact(art)
       ok = confirm(self.pid, path)
       if ok is None:
+        # Not reproduced by the case alone: the library may keep state between calls (a cache keyed too
+        # coarsely, a class-level buffer).  Replay the case after the cases the same worker process ran before
+        # it in its chunk; if THAT reproduces twice with the same observation it is a violation whose artefact
+        # carries the history it needs.
+        pre = next((vv.get("prelude") for cc, vv in lst if vv.get("prelude")), None)
+        if pre:
+          cand = next((cc, vv) for cc, vv in lst if vv.get("prelude"))
+          art2 = dict(art, case=to_json(cand[0]), prelude=to_json(pre),
+                      what=cand[1]["what"] + " [reproduces only after the %d cases run before it in the same "
+                                             "process: state kept between calls]" % len(pre),
+                      expected=cand[1]["expected"], observed=cand[1]["observed"])
+          path2 = write_artefact(art2)
+          if confirm(self.pid, path2):
+            ok, path, v = True, path2, dict(cand[1], what=art2["what"])
+            case = cand[0]
+      if ok is None:
         print("HARNESS-NONDETERMINISM property=%s replay=%s (two replays of the "
               "artefact disagree; not reported as a violation)" % (self.pid, path))
         status = 3
@@ -412,7 +436,7 @@ def match_known(known, key):
 def write_artefact(art, known=False):
   d = os.path.join(OUT, "replays")
   os.makedirs(d, exist_ok=True)
-  h = hashlib.sha1(json.dumps([art["kind"], art["case"]], sort_keys=True)
+  h = hashlib.sha1(json.dumps([art["kind"], art["case"], len(art.get("prelude") or [])], sort_keys=True)
                    .encode()).hexdigest()[:12]
   name = "%s-%s%s.json" % (art["property"], "known-" if known else "", h)
   path = os.path.join(d, name)
@@ -442,6 +466,8 @@ def replay(module, path, quiet=False):
     if r.viol is not None and r.viol["key"].startswith("harness-exception:"):
       r.viol["key"] = "generator-exception:" + r.viol["key"].split(":", 1)[1]
   else:
+    for pc in from_json(art.get("prelude") or []):
+      run_one(kind, pc)                    # the history the violation needs (results not looked at)
     r = run_one(kind, case)
   obs = None if r.viol is None else {"key": r.viol["key"],
                                      "observed": r.viol["observed"]}
